@@ -1,19 +1,64 @@
 (* C05 — Deleting versions and collecting garbage never harm what is kept. *)
-From CV Require Import Base.Str Apath Entry Store StitchProg Backup Delete SafeP.
+From CV Require Import Base.Str Apath Entry Store StitchProg Backup Delete SafeP DeleteP.
 
-(* For every fault list (hence every crash point and every failing read): the operations a
-   delete can emit are reads, its lock, the removal of REQUESTED band directories, and
-   block removals. *)
-Theorem C05_delete_touches_only_requested_bands : forall (ids : list N) (dry brk : bool) (hint : list bytes),
-  emits_only (delete_op ids) (delete_prog ids dry brk hint).
-Proof. exact delete_emits. Qed.
-Print Assumptions C05_delete_touches_only_requested_bands.
+(* For EVERY fault list — every crash point of the delete, every failing read or listing —
+   and every set of versions to delete, at every intermediate state and at the end: every
+   version that is kept still has its directory, head, tail and every hunk unchanged, and
+   every block any of its hunks references is unchanged. *)
+Theorem C05_kept_versions_never_harmed :
+  forall (pre : bytes -> N) (ids : list N) (dry brk : bool) (hint : list bytes) (a0 : arch) (phi : list fault),
+    WFhunks a0 ->
+    Forall (Kept ids a0) (run_states pre (delete_prog ids dry brk hint) a0 phi) /\
+    Kept ids a0 (snd (fst (run pre (delete_prog ids dry brk hint) a0 phi))).
+Proof. exact delete_keeps. Qed.
+Print Assumptions C05_kept_versions_never_harmed.
 
-(* A dry run changes nothing but its own lock — at every intermediate state, for every
-   fault list. *)
+(* A successful real delete: exactly the requested versions are gone (directory and every
+   file under it), no unreferenced non-empty block remains, the lock is released, nothing
+   was created or modified — and what is kept is intact. *)
+Theorem C05_delete_is_exact :
+  forall (pre : bytes -> N) (ids : list N) (brk : bool) (hint : list bytes) (a0 : arch) (r : dres),
+    WFdirs pre a0 ->
+    snd (run pre (delete_prog ids false brk hint) a0 []) = Done r -> d_ok r = true ->
+    exact_post pre ids a0 (snd (fst (run pre (delete_prog ids false brk hint) a0 []))) r /\
+    Kept ids a0 (snd (fst (run pre (delete_prog ids false brk hint) a0 []))).
+Proof. exact delete_exact. Qed.
+Print Assumptions C05_delete_is_exact.
+
+(* The well-formedness it needs (files have their parent directories) holds of the empty
+   archive and is preserved by every program under every fault list. *)
+Theorem C05_wellformedness_preserved :
+  forall (pre : bytes -> N) (R : Type) (p : prog R) (a : arch) (phi : list fault),
+    WFdirs pre a -> Forall (WFdirs pre) (run_states pre p a phi) /\ WFdirs pre (snd (fst (run pre p a phi))).
+Proof. exact run_WFdirs. Qed.
+Print Assumptions C05_wellformedness_preserved.
+
+(* A dry run changes nothing but its own lock — at every intermediate state, every fault list. *)
 Theorem C05_dry_run_changes_nothing :
   forall (pre : bytes -> N) (ids : list N) (brk : bool) (hint : list bytes) (a0 : arch) (phi : list fault),
     Forall (same_but_lock a0) (run_states pre (delete_prog ids true brk hint) a0 phi) /\
     same_but_lock a0 (snd (fst (run pre (delete_prog ids true brk hint) a0 phi))).
 Proof. exact delete_dry_run_noop. Qed.
 Print Assumptions C05_dry_run_changes_nothing.
+
+(* While the newest version is incomplete (no tail, or a zero-length one) a delete refuses
+   and performs reads only. *)
+Theorem C05_refuses_while_a_backup_may_be_running :
+  forall (pre : bytes -> N) (ids : list N) (dry brk : bool) (hint : list bytes) (a0 : arch) (b : N),
+    newest_band a0 = Some b -> no_tail a0 b -> brk = false \/ get a0 PLock = None ->
+    exists tr : list (op * reply),
+      run pre (delete_prog ids dry brk hint) a0 [] = (tr, a0, Done dfail) /\
+      Forall (fun x : op * reply => reads_only (fst x)) tr.
+Proof. exact delete_refuses_incomplete. Qed.
+Print Assumptions C05_refuses_while_a_backup_may_be_running.
+
+(* Once taken, the lock is released on success and on every error path (no kill). *)
+Theorem C05_lock_released :
+  forall (pre : bytes -> N) (ids : list N) (dry brk : bool) (hint : list bytes) (a0 : arch) (phi : list fault)
+         (i : nat) (pl : payload) (m : wmode),
+    no_crash phi ->
+    nth_error (fst (fst (run pre (delete_prog ids dry brk hint) a0 phi))) i = Some (OpWrite PLock pl m, ROk) ->
+    exists (j : nat) (rep : reply), (i < j)%nat /\
+      nth_error (fst (fst (run pre (delete_prog ids dry brk hint) a0 phi))) j = Some (OpRemoveFile PLock, rep).
+Proof. exact delete_lock_released. Qed.
+Print Assumptions C05_lock_released.
